@@ -5,6 +5,8 @@ From Sdns Require Import Common.Base Gen.C12 C12.Model C12.Skeleton C12.Proofs_l
 Open Scope N_scope.
 
 Definition is_work (r : reply) : Prop := exists e ede, r = ReplyWork e ede.
+(* ... built from the client's request: an EDNS client gets the Extended DNS Error *)
+Definition is_work_ede (r : reply) : Prop := exists e, r = ReplyWork e true.
 
 (* a program whose result is the policy failure whenever it leaves the ledger latched, provided
    it was entered unlatched *)
@@ -84,14 +86,6 @@ Section WithQueryer.
       cbn. intros L. destruct (Hc L) as (? & ? & ?). discriminate.
   Qed.
 
-  Lemma pipeline_over : forall c, over_ok (pipeline maxdepth qmin v6 Smax Fmax nq c).
-  Proof.
-    intros c adv w U. unfold pipeline. cbn [run].
-    destruct (Nat.modulo (adv (w_tick w)) 2) as [|hit].
-    - apply pipeline_miss_over.
-    - apply chase_gate_over. exact U.
-  Qed.
-
   (* on the miss path the policy failure is always rebuilt from the client's request *)
   Lemma pipeline_miss_has_ede : forall c adv w e ede,
     snd (run adv (pipeline_miss maxdepth qmin v6 Smax Fmax nq c) w) = ReplyWork e ede -> ede = true.
@@ -106,6 +100,47 @@ Section WithQueryer.
     - cbn [run]. destruct (Nat.modulo (adv (w_tick w1)) 2) as [|sf]; [|apply WF].
       rewrite run_bind. destruct (run adv (chase_gate nq c) (w_ticked w1)) as [w2 r'].
       destruct r'; try apply WF. cbn. discriminate.
+  Qed.
+  Lemma pipeline_miss_over_ede : forall c adv w,
+    latched (fst (run adv (pipeline_miss maxdepth qmin v6 Smax Fmax nq c) w)) ->
+    is_work_ede (snd (run adv (pipeline_miss maxdepth qmin v6 Smax Fmax nq c) w)).
+  Proof.
+    intros c adv w L. destruct (pipeline_miss_over c adv w L) as (e & ede & H).
+    exists e. rewrite H. f_equal. eapply pipeline_miss_has_ede. exact H.
+  Qed.
+
+  (* the hit path re-checks the ledger after the chase (fix ca465fd) *)
+  Lemma pipeline_hit_over_ede : forall c adv w, ~ latched w ->
+    latched (fst (run adv (pipeline_hit nq c) w)) -> is_work_ede (snd (run adv (pipeline_hit nq c) w)).
+  Proof.
+    intros c adv w U. unfold pipeline_hit. rewrite run_bind.
+    pose proof (chase_gate_over c adv w U) as Hc.
+    destruct (run adv (chase_gate nq c) w) as [w1 r']. cbn [fst snd] in Hc.
+    destruct r'; cbn [run].
+    - cbn. intros L. destruct (Hc L) as (? & ? & ?). discriminate.
+    - destruct (enforcement_error (w_led w1)) eqn:E; cbn [fst snd]; try (intros _; eexists; reflexivity).
+      intros L. exfalso. apply L. exact E.
+    - destruct (enforcement_error (w_led w1)) eqn:E; cbn [fst snd]; try (intros _; eexists; reflexivity).
+      intros L. exfalso. apply L. exact E.
+    - destruct (enforcement_error (w_led w1)) eqn:E; cbn [fst snd]; try (intros _; eexists; reflexivity).
+      intros L. exfalso. apply L. exact E.
+    - destruct (enforcement_error (w_led w1)) eqn:E; cbn [fst snd]; try (intros _; eexists; reflexivity).
+      intros L. exfalso. apply L. exact E.
+  Qed.
+
+  Lemma pipeline_over_ede : forall c adv w, ~ latched w ->
+    latched (fst (run adv (pipeline maxdepth qmin v6 Smax Fmax nq c) w)) ->
+    is_work_ede (snd (run adv (pipeline maxdepth qmin v6 Smax Fmax nq c) w)).
+  Proof.
+    intros c adv w U. unfold pipeline. cbn [run].
+    destruct (Nat.modulo (adv (w_tick w)) 2) as [|hit].
+    - apply pipeline_miss_over_ede.
+    - apply pipeline_hit_over_ede. exact U.
+  Qed.
+
+  Lemma pipeline_over : forall c, over_ok (pipeline maxdepth qmin v6 Smax Fmax nq c).
+  Proof.
+    intros c adv w U L. destruct (pipeline_over_ede c adv w U L) as (e & H). exists e, true. exact H.
   Qed.
 End WithQueryer.
 
@@ -129,25 +164,25 @@ Proof.
   destruct (negb (p_mode pol =? mode_enforce)); reflexivity.
 Qed.
 
-(* over budget  =>  SERVFAIL built by the policy path, never handed to the failure cache *)
+(* over budget  =>  SERVFAIL built by the policy path from the client's request (so it carries the
+   EDE for an EDNS client), never handed to the failure cache — on the miss path and on the hit path *)
 Lemma overbudget_lemma : forall maxdepth qmin v6 Smax Fmax pol adv,
   let '(w', r) := run adv (client maxdepth qmin v6 Smax Fmax cx0) (fresh pol) in
-  latched w' -> exists e ede, r = ReplyWork e ede.
+  latched w' -> exists e, r = ReplyWork e true.
 Proof.
-  intros. pose proof (client_over maxdepth qmin v6 Smax Fmax cx0 adv (fresh pol) (fresh_unlatched pol)) as H.
+  intros. unfold client.
+  pose proof (pipeline_over_ede maxdepth qmin v6 Smax Fmax (query maxdepth qmin v6 Smax Fmax (N.to_nat max_queryer_recursion))
+                (fun cc => query_over maxdepth qmin v6 Smax Fmax _ cc) cx0 adv (fresh pol) (fresh_unlatched pol)) as H.
   destruct (run adv _ (fresh pol)) as [w' r]. exact H.
 Qed.
 
-(* the full statement also promises the EDE to every EDNS client; the cache-hit path breaks it *)
+(* the adversary that defeated the hit path before fix ca465fd: the hit-path chase goes over an
+   internal budget of 1; the reply now carries the EDE *)
 Definition witness_pol : policy := mk_T_RecursionWorkPolicy mode_enforce 128 1 4 8 32 32 32 32.
-Lemma overbudget_ede_refuted_lemma :
-  exists adv pol, p_mode pol = mode_enforce /\
-    let '(w', r) := run adv (client 30 5 false 1 1 cx0) (fresh pol) in
-    latched w' /\ r = ReplyWork (RLimit kind_internal 1) false.
-Proof.
-  exists (fun _ => 1%nat), witness_pol. split; [reflexivity|].
-  vm_compute. split; [discriminate|reflexivity].
-Qed.
+Lemma overbudget_hit_path_example_lemma :
+  let '(w', r) := run (fun _ => 1%nat) (client 30 5 false 1 1 cx0) (fresh witness_pol) in
+  latched w' /\ r = ReplyWork (RLimit kind_internal 1) true.
+Proof. vm_compute. split; [discriminate|reflexivity]. Qed.
 
 (* shadow = off, at the client: same reply, same upstream exchanges, same sub-queries, for every
    adversary; in neither mode is anything ever refused *)
